@@ -283,9 +283,12 @@ def inv4 (u : U) (o : Obs) (tol : List Int) : Option (String × String) :=
     then some ("C04_stable_le_debt", "issued-exceeds-debt")
   -- total principal = Σ debt up to interest rounding
   else if (List.range E.P.colls.length).any (fun t =>
-      let sumDebt := sumI ((o.cdps.filter (fun e => e.2.ty == t)).map (fun e => e.2.prin + e.2.fees))
+      -- debt of a CDP = principal + fees + the interest accrued since its last synchronisation
+      -- (what `LoadAugmentedCDP` reports); each CDP contributes one more rounding
+      let mine := o.cdps.filter (fun e => e.2.ty == t)
+      let sumDebt := sumI (mine.map (fun e => e.2.prin + e.2.fees + (newInterest (stOf o) e.2).getD 0))
       let drift := o.tprin.getD t 0 - sumDebt
-      (if drift < 0 then -drift else drift) > tol.getD t 0)
+      (if drift < 0 then -drift else drift) > tol.getD t 0 + mine.length)
     then some ("C04_total_principal", "drift-exceeds-rounding")
   else none
 
